@@ -71,6 +71,9 @@ def sstep (c : Ctx) (prog : List Insn) (nS : Nat) (pc ix : Nat) (slots astk : Li
       | none => none
       | some cnt =>
         if hi == some cnt then some (.run next ix slots astk stack) else
+        -- an unbounded loop counts its iterations, each of which advances: the counter never exceeds the
+        -- text length (in particular it is not `usize::MAX`, where vm.rs would leave the loop)
+        if hi == none && decide (c.len < cnt) then none else
         let slots' := slots.set rep (cnt + 1)
         if cnt ≥ lo then some (.run (pc + 1) ix slots' astk (⟨next, ix, slots', astk⟩ :: stack))
         else some (.run (pc + 1) ix slots' astk stack)
@@ -81,6 +84,9 @@ def sstep (c : Ctx) (prog : List Insn) (nS : Nat) (pc ix : Nat) (slots astk : Li
       | none => none
       | some cnt =>
         if hi == some cnt then some (.run next ix slots astk stack) else
+        -- an unbounded loop counts its iterations, each of which advances: the counter never exceeds the
+        -- text length (in particular it is not `usize::MAX`, where vm.rs would leave the loop)
+        if hi == none && decide (c.len < cnt) then none else
         let slots' := slots.set rep (cnt + 1)
         if cnt ≥ lo then some (.run next ix slots' astk (⟨pc + 1, ix, slots', astk⟩ :: stack))
         else some (.run (pc + 1) ix slots' astk stack)
